@@ -286,6 +286,40 @@ def r4_placement(rep, facts):
     rep.check(R, 'visit_table|visibility', ok, 'visible iff !(implicit && no values)', f'header visibility predicate changed: {detail}', facts.loc(b))
 
 
+STORE_OPS = {'insert', 'insert_formatted', 'push', 'push_formatted', 'extend'}
+NEUTRAL_OPS = {'reserve', 'len', 'is_empty', 'capacity'}      # sizing the storage stores nothing and drops nothing
+
+
+def r2d_bulk_insertion(rep, facts):
+    R = rep.rule('C08/R2d', 'adding many entries is adding each of them: every workspace impl of Extend hands each incoming element to the container\'s '
+                 'own storing operation (insert / push / the storage\'s extend), unconditionally — a keep-first operation (entry().or_insert, a contains_key guard) '
+                 'would silently drop the replacement of a key that is already there', floor=4)
+    from .shared import conditions_above
+    n = 0
+    for imp in facts.impls:
+        if (imp.get('trait') or '') != 'core::iter::traits::collect::Extend':
+            continue
+        for it in imp['items']:
+            if it['name'] != 'extend' or not facts.has_body(it['def']):
+                continue
+            b = facts.body(it['def'])
+            ps = b.get('params', [])
+            me = ps[0].get('name') if ps and ps[0].get('k') == 'p_bind' else None
+            on_self = [x for x in walk(b['body']) if x.get('k') == 'mcall' and x.get('name') not in NEUTRAL_OPS and any(y.get('k') == 'path' and y.get('res') == 'Local' and y.get('path') == me for y in walk(x['recv']))]
+            # only the outermost call of a chain on self counts (`self.items.entry(k).or_insert(v)` is one chain)
+            inner = {id(y) for x in on_self for y in walk(x['recv'])}
+            outer = [x for x in on_self if id(x) not in inner]
+            names = [x.get('name') for x in outer]
+            chain = sorted({y.get('name') for x in on_self for y in [x]})
+            guarded = [x for x in outer if conditions_above(b['body'], x)]
+            ok = len(outer) == 1 and names[0] in STORE_OPS and set(chain) <= STORE_OPS and not guarded
+            n += 1
+            rep.check(R, f'{imp["self_ty"]}|extend', ok, f'self..{names[0] if names else "?"}(element)',
+                      f'`{it["def"]}` stores an incoming element through {chain}' + (' under a condition' if guarded else '') +
+                      ': an element whose key is already present does not replace the old value (or some elements are not stored at all)', facts.loc(b))
+    rep.check(R, 'count', n >= (5 if 'toml' in facts.crates else 4), f'{n} impls of Extend', f'only {n} impls of Extend found in the workspace')
+
+
 def rules(rep, facts):
     if 'toml_edit' not in facts.crates:
         return
@@ -293,6 +327,7 @@ def rules(rep, facts):
                   'toml_edit / toml library code; removal goes through shift_remove', floor=2)
     order_ops(rep, R1, facts)
     r2_inplace(rep, facts)
+    r2d_bulk_insertion(rep, facts)
     r3_conversions(rep, facts)
     R6 = rep.rule('C08/R6', 'sorting touches what the API documents: each of the four sort functions sorts its own entries once, recurses only into dotted '
                   'children (sub-tables with their own header keep their order), through the same function and with the same comparison', floor=8)
